@@ -241,7 +241,8 @@ pub fn gen_sparse_big(rng: &mut Rng, pools: &Pools) -> Case {
     let cfg = gen_cfg(rng, true);
     let unicode = rng.coin();
     let filler = if unicode { *rng.pick(&['\u{e9}', '\u{4e2d}', 'x']) } else { *rng.pick(&['x', '-', ' ']) };
-    let hl = *rng.pick(&[300usize, 1100, 5000, 12000, 40000, 70000]) + rng.below(50);
+    // includes lengths just above 2^16 and 2^17 (16 bit gap / offset arithmetic)
+    let hl = *rng.pick(&[300usize, 1100, 5000, 12000, 40000, 70000, 65536, 65536, 131072]) + rng.below(50);
     let mut hay: Vec<char> = vec![filler; hl];
     let mut specials: Vec<char> = "abAB1/".chars().collect();
     if unicode {
@@ -770,8 +771,13 @@ pub fn gen_case_for(idx: u64, rng: &mut Rng, pools: &Pools, props: &Props, long_
     }
 }
 
+/// a long lived matcher is constructed with one configuration and gets others assigned in place later
+pub fn initial_matcher(seed: u64, shard: u64, epoch: u64) -> Matcher {
+    Matcher::new(RCfg::from_index((mix(&[seed, shard, epoch, 77]) % RCfg::COUNT as u64) as usize).real())
+}
+
 pub fn run(opts: &MatchOpts, props: &Props, pools: &Pools, rep: &mut Report) {
-    let mut matcher = Matcher::default();
+    let mut matcher = initial_matcher(opts.seed, opts.shard, 0);
     let range: Box<dyn Iterator<Item = u64>> = match opts.replay {
         Some(i) => Box::new(i..i + 1),
         None => Box::new(0..opts.cases),
@@ -782,6 +788,9 @@ pub fn run(opts: &MatchOpts, props: &Props, pools: &Pools, rep: &mut Report) {
             break;
         }
         let mut rng = Rng::new(mix(&[opts.seed, opts.shard, idx]));
+        if idx % 4096 == 4095 {
+            matcher = initial_matcher(opts.seed, opts.shard, idx / 4096 + 1);
+        }
         let case = gen_case_for(idx, &mut rng, pools, props, opts.long_only);
         if case.needle.chars.iter().any(|&c| ref_norm(c, &case.cfg) != c) {
             // the composed projection is not idempotent for a few characters; such a needle is
